@@ -186,6 +186,17 @@ CHECKS = {
             'Known finding (one root cause, 4 shape classes): post-order hoisting reorders operands; the text-comparing ANF tests pin '
             'that numbering, so it cannot be repaired without editing tests. Shapes containing a lazy form are never downgraded.',
             'DESIGN.md 2/C18'),
+    'C19': ('exploration',
+            'bounded-exhaustive program enumeration x typed inputs x all tapes; TYPES / CLOSURE_TYPES annotations vs. the run-time types logged by an instrumented run, with a truthful resolver',
+            '~8.9k programs (three menus: scalar types and joins, tuples / lists / unpacking / chained assignment, local functions '
+            'reading / nonlocal-rebinding) are analysed with a resolver that answers by applying the real operator to representatives; '
+            'on every execution (3 typed inputs x all tapes) every annotated Name load / store must contain the run-time type of its '
+            'value and CLOSURE_TYPES must cover the captured variables at each call of the local function; a fixed-point guard '
+            'reports non-terminating inference.',
+            'Known findings: assignments from values of unknown type (incl. every augmented assignment) keep the old type; nonlocal '
+            'rebinding by a local function is not reflected after the call; inference diverges on x = (x, y) in a loop. Violations '
+            'are attributed to these root causes by dynamic taint tracking of the last writer.',
+            'DESIGN.md 2/C19'),
     'C20': ('exploration',
             'complete enumeration of the finite option space (1024 values, 1024^2 pairs) against a reference tuple model',
             'The whole configuration space is enumerated (exhaustive: true): AST round trip, eq/hash over all pairs, '
@@ -195,7 +206,7 @@ CHECKS = {
             'DESIGN.md 2/C20'),
 }
 
-PENDING_REASON = 'checker not built yet in this round (planned, see DESIGN.md section 2); not claimed until it runs clean'
+PENDING_REASON = 'checker not built yet (planned, see DESIGN.md section 2); not claimed until it runs clean'
 
 
 def main():
